@@ -198,6 +198,13 @@ func (g *g) intLit() string {
 	case 5:
 		return fmt.Sprintf("0%o", g.r.Range(1, 4000))
 	case 6:
+		if g.r.Chance(1, 2) {
+			// on and next to the edges of the size classes of the stored encoding (sqlite4 varint:
+			// 240/241, 2287/2288, 67823/67824, then one more payload byte at every power of 256)
+			// and of the machine words
+			edges := []uint64{240, 2287, 67823, 1 << 16, 1 << 24, 1 << 31, 1 << 32, 1 << 40, 1 << 48, 1 << 56, 1 << 62}
+			return fmt.Sprint(edges[g.r.Intn(len(edges))] + uint64(g.r.Intn(3)) - 1)
+		}
 		return fmt.Sprint(uint64(g.r.U64() >> uint(g.r.Range(1, 40))))
 	default:
 		return "9223372036854775807"
